@@ -18,6 +18,7 @@ import LogosModel.PassesAll
 import LogosModel.StateType
 import LogosModel.Subst
 import LogosModel.Calls
+import LogosModel.IgnoreGroup
 import LogosModel.Look.Utf8ClosedC
 import Std.Data.HashMap
 import LogosModel.Source
@@ -638,6 +639,15 @@ def textpipeAnswer (args : List String) : String :=
   s!"errs={b.errs} " ++ ";".intercalate (calls.map fun c =>
     s!"{if c.unicode then 1 else 0} {if c.icase then 1 else 0} {hexOf c.src}")
 
+/-- "IGNOREGRP": tokens `i:<ident>`, `c` (comma), `o` (anything else) of an `ignore(...)` group -/
+def ignoreGrpAnswer (toks : List String) : String :=
+  let ts := toks.map fun t => match t.splitOn ":" with
+    | ["i", n] => IgnoreGroup.GTok.ident n
+    | ["c"] => .comma
+    | _ => .other 0
+  let r := IgnoreGroup.parseGroup ts
+  s!"flag={if r.ignoreCase then 1 else 0} errs={r.errs}"
+
 partial def run (h : IO.FS.Stream) (out : IO.FS.Stream) (cur : Case) (tbl : Std.HashMap String Case := {}) : IO Unit := do
   let line ← h.getLine
   if line.isEmpty then return ()
@@ -691,6 +701,9 @@ partial def run (h : IO.FS.Stream) (out : IO.FS.Stream) (cur : Case) (tbl : Std.
     run h out cur tbl
   | "Q" :: "TEXTPIPE" :: args =>
     out.putStrLn s!"{cur.name} TEXTPIPE {" ".intercalate args} : {textpipeAnswer args}"
+    run h out cur tbl
+  | "Q" :: "IGNOREGRP" :: toks =>
+    out.putStrLn s!"{cur.name} IGNOREGRP {" ".intercalate toks} : {ignoreGrpAnswer toks}"
     run h out cur tbl
   | "Q" :: "ATTR" :: flag :: toks =>
     out.putStrLn s!"{cur.name} ATTR {flag} {" ".intercalate toks} : {attrAnswer flag toks}"
